@@ -6,6 +6,10 @@ import os
 VERIF = os.path.dirname(os.path.dirname(os.path.abspath(__file__)))
 
 CLAIMED = {
+    "C09": dict(cat="exploration", design="§5 C09", engine="probe",
+                text="An always-compiling probe is executed and prints the complete 25-rule x 4-class x 2-marker auto-trait matrix (finite, enumerated completely); every cell where the opaque type has a marker its instance handle lacks is a violation unless listed (78 known cells = upstream issue 18). Safe-code race witnesses for the rule families run under Miri's data-race detector and do race.",
+                note="The judgement per cell is the trait solver's (static); the matrix is read out at run time. Witnesses cover rule families, not every cell.",
+                tech="exhaustive finite matrix read out by an executed probe + Miri data-race witnesses"),
     "C03": dict(cat="translation_validation", design="§5 C03", engine="expander",
                 text="Output validation of generator runs: the real generator (cglue-gen linked as a library into /verif/expander) is executed on ~400 (quick) / ~1000 (thorough) definition cases over the bounded grammar; every output is compiled as plain source with improper_ctypes_definitions/improper_ctypes denied, together with by-value and by-reference extern \"C\" probes of every opaque object/group type and every library wrapper type. A canary proves the lint is alive in the same build. The judgement is the compiler's (static); the executions and their validation are ours.",
                 note="Trusts rustc's FFI-safety lints; generic container parameters are opaque to the lint inside generic wrappers (covered by concrete probes).",
@@ -95,6 +99,7 @@ def main():
                    baseline_off_cmd="cd /repo && cargo test --workspace --no-fail-fast --offline",
                    source_commits=[], add_only=True),
         engines=[
+            dict(name="probe", path="probe/", serves_properties=["C09"], kind_free_text="auto-trait matrix probe and safe-code race witnesses"),
             dict(name="expander", path="expander/", serves_properties=["C03", "C04"],
                  kind_free_text="binary linking cglue-gen as a library: runs the real code generator on definition files and prints the expansion"),
             dict(name="glue", path="glue/", serves_properties=["C01", "C02", "C06", "C07", "C08", "C13"],
